@@ -10,7 +10,9 @@ def run(chk):
     names = None
     # a grid regridded by redistributePoints and written WITHOUT an explicit calculateRZ() in between (redistributePoints itself must leave the points on the edges
     # shared between regions coincident), and an upper disconnected double null whose inboard and outboard SOL limits differ
-    extra = [corpus.tok("lsn_nonorth_regrid_direct", "lsn", corpus.nonorth(corpus.SN), regrid=[dict(geometry_before=True, settings=corpus.RG1, calculateRZ=False)], must_build=True)]
+    extra = [corpus.tok("lsn_nonorth_regrid_direct", "lsn", corpus.nonorth(corpus.SN), regrid=[dict(geometry_before=True, settings=corpus.RG1, calculateRZ=False)], must_build=True),
+             # a periodic core-only grid with the guard-cell option set: no targets, so no guard cells; theta still runs from 0 to 2 pi
+             dict(name="circ_g2", kind="circular", options=dict(number_of_processors=1, nx_core=4, ny_total=8, y_boundary_guards=2), must_build=True)]
     grids = corpus.get(tier=chk.tier, extra_cfgs=extra)
     n = 0
     for g in grids:
@@ -26,7 +28,8 @@ def run(chk):
         kind = g.cfg.get("family", g.cfg["kind"])
         tag = f"{kind}" + (":start_at_upper_outer" if g.cfg.get("options", {}).get("start_at_upper_outer") else "")
         circ = g.cfg["kind"] == "circular"
-        jg = (lambda j: j + myg if (not dn or j < t["ny_inner"]) else j + 3 * myg)
+        mygi = 0 if circ else myg       # guard rows actually present in the arrays (a grid without targets has none)
+        jg = (lambda j: j + mygi if (not dn or j < t["ny_inner"]) else j + 3 * mygi)
         n += 1
         if not circ and not ordered(t, ny):
             topo = "sn" if not dn else "dn"
@@ -55,10 +58,10 @@ def run(chk):
         nyg = yc.shape[1]
         if not np.allclose(yc, np.arange(nyg)[None, :] * dy[0, 0], rtol=0, atol=1e-12) or not np.allclose(dy, dy[0, 0], rtol=0, atol=0):
             chk.fail("y-coord", "y-coord is not j*dy with uniform dy", where)
-        if circ:
-            continue
         core = [j for j in range(ny) if (t["jyseps1_1"] < j <= (t["jyseps2_1"] if dn else t["jyseps2_2"])) or (dn and t["jyseps1_2"] < j <= t["jyseps2_2"])]
-        if core and ordered(t, ny):
+        if circ and F["theta"].shape[1] != ny:
+            continue        # (a circular grid with targets -- limiter -- is not part of the corpus)
+        if core and (circ or ordered(t, ny)):
             th, thl = F["theta"], F["theta_ylow"]
             d0 = dy[0, 0]
             errs = [abs(thl[0, jg(core[0])])]
@@ -66,6 +69,8 @@ def run(chk):
             errs.append(abs(th[0, jg(core[-1])] + 0.5 * d0 - 2 * np.pi))
             if max(errs) > 1e-10 or np.abs(th - th[0:1, :]).max() > 0:
                 chk.fail(f"theta:{tag}", "theta is not 0 half a cell before the first core cell, increasing by dy round the core to 2*pi", dict(where, max_err=float(max(errs))))
+            if circ:
+                continue
             chi = F["chi"]
             xclosed = min(t["ixseps1"], t["ixseps2"]) if dn else t["ixseps1"]
             expect_finite = np.zeros_like(chi, dtype=bool)
